@@ -45,6 +45,7 @@ func (fr *Frame) loopCut(h *ssa.BasicBlock, n int, body map[*ssa.BasicBlock]bool
 		}
 		sc := fr.scope(entry, fr.entry)
 		sc.phiOver, sc.header = over, h
+		sc.at = h.Instrs[0]
 		for i, cl := range lc.Invariants {
 			g := fr.evalClause(sc, cl)
 			c.oblige(fr.invName("inv-init", n, cl, i), "inv-init", x.target, "invariant "+cl.Text, fr.pos(h.Instrs[0].Pos()), entry.Reach, g, x.topReqs)
@@ -80,6 +81,7 @@ func (fr *Frame) loopCut(h *ssa.BasicBlock, n int, body map[*ssa.BasicBlock]bool
 	if lc != nil {
 		sc := fr.scope(st, fr.entry)
 		sc.header = h
+		sc.at = h.Instrs[0]
 		sc.phiOver = map[ssa.Value]string{}
 		for _, p := range phis {
 			sc.phiOver[p] = fr.env[p]
@@ -112,6 +114,7 @@ func (fr *Frame) loopBack(from, h *ssa.BasicBlock, es *State) {
 	}
 	sc := fr.scope(es, fr.entry)
 	sc.phiOver, sc.header = over, h
+	sc.at = h.Instrs[0]
 	for i, cl := range lc.Invariants {
 		g := fr.evalClause(sc, cl)
 		x.c.oblige(fr.invName("inv-pres", n, cl, i), "inv-pres", x.target, "invariant "+cl.Text, fr.pos(from.Instrs[len(from.Instrs)-1].Pos()), es.Reach, g, x.topReqs)
@@ -121,6 +124,7 @@ func (fr *Frame) loopBack(from, h *ssa.BasicBlock, es *State) {
 		// existed at the loop head
 		head := fr.heads[h]
 		hs := fr.scope(head, fr.entry)
+		hs.at = h.Instrs[0]
 		pre := x.target + "#loop-frame:loop" + fmt.Sprint(n)
 		if !fr.top {
 			pre = x.target + "#loop-frame:" + fr.prefix + ":loop" + fmt.Sprint(n)
@@ -148,6 +152,7 @@ func (fr *Frame) havocLoop(st *State, h *ssa.BasicBlock, body map[*ssa.BasicBloc
 	explicit := lc != nil && len(lc.Modifies) > 0
 	if explicit {
 		sc := fr.scope(entry, fr.entry)
+		sc.at = h.Instrs[0]
 		for _, m := range lc.Modifies {
 			x.havocRegion(st, sc, m.E)
 		}
@@ -252,6 +257,10 @@ func (fr *Frame) scanInstr(fp *footprint, in ssa.Instruction, inLoop func(ssa.Va
 		if x.c.sortOf(in.Type()) == "Slice" {
 			fp.alloc = true
 			fp.sorts["(_ BitVec 8)"] = true
+		}
+	case *ssa.Next:
+		if !in.IsString {
+			fp.comps[mapIterKey(in.Iter)] = true // the ghost element count advances
 		}
 	case *ssa.Send:
 		fp.cnts["cnt:chan:send"] = true
@@ -462,6 +471,14 @@ func (x *Exec) havocRegion(st *State, sc *Scope, e Expr) {
 		x.bulkWrite(st, u.Elem(), arr, off, sx("sl_len", v.T), func(i string, lp leafPath, pre map[string]string) string {
 			return sx("select", fresh[lp.sort], applySteps(elt(arr, x.addIdx(off, i)), lp.steps))
 		})
+		return
+	}
+	if cl, ok := e.(ECall); ok && cl.Fun == "cell" && len(cl.Args) == 1 {
+		// cell(x): the variable / field x itself (for map- or slice-typed x, not its contents)
+		loc, ty := sc.lvalue(cl.Args[0])
+		nv := c.freshConst("mod", c.sortOf(ty))
+		x.store(st, ty, loc, nv)
+		x.assumeAllocatedDeep(st, ty, nv)
 		return
 	}
 	if v, ok := sc.tryEval(e); ok && v.Ty != nil {
